@@ -285,6 +285,22 @@ theorem sampler_density_bookkeeping {M : Type} [AddCommMonoid M] (J : M) (lj : S
     simp [List.mem_filter, and_comm]
   rw [hsplit, hneeded, add_assoc]
 
+/-- the two halves together, for the list a builder emits: if the emitted `joint.jacobian` lists the
+(string) ids `ids`, the TransformedParameter ids of the specification are pairwise distinct and none
+is called `tree`, and every transform under a prior is among `ids` or has zero log-Jacobian, then
+the density handed to the sampler is the constrained joint plus each needed log-Jacobian exactly
+once (plus the terms of listed transforms under which no prior is placed). -/
+theorem density_identity_for_emitted {M : Type} [AddCommMonoid M] (J : M) (lj : String → M)
+    (p : Post) (f : Flags) (j : Json ν) (ids needed : List String)
+    (h : finalJacobians p f j = some (ids.map Json.str))
+    (hdistinct : ((subvalues j).filterMap tpIdOf).Nodup)
+    (htree : Json.str "tree" ∉ (subvalues j).filterMap tpIdOf)
+    (hn : needed.Nodup) (hcover : ∀ i ∈ needed, i ∈ ids ∨ lj i = 0) :
+    J + (ids.map lj).sum =
+      J + (needed.map lj).sum + ((ids.filter (fun i => decide (i ∉ needed))).map lj).sum := by
+  have hnd := (final_jacobians_exactly_once p f j _ h hdistinct htree).1
+  exact sampler_density_bookkeeping J lj ids needed (List.Nodup.of_map _ hnd) hn hcover
+
 /-! ## make_unconstrained
 
 Global statement first, then what it means for one parameter, then the exact values case by case. -/
